@@ -17,7 +17,8 @@ ID = "C10"
 LEVEL = "fault_enumeration"
 RULE = ("a case is (history of 2-5 loky Parallel calls, with/without `with`, n_jobs 2-4) x one fault: victims 1..n_jobs x how "
         "{SIGKILL, SIGSEGV, os._exit, SIGTERM} x instant {arg_unpickle, task_start, mid_task, task_end, result_pickle, "
-        "result_send_small, result_send_large, idle_between_calls, next_call_startup}; the quick tier enumerates every "
+        "result_send_small, result_send_large, idle_between_calls, next_call_startup, next_call_startup_other_n_jobs (the next call asks for another n_jobs, so the executor is being resized or gracefully replaced when the idle worker dies), executor_replacement / executor_resize (a generator call is running when a second call "
+        "with other executor arguments / another n_jobs makes loky shut the executor down gracefully or resize it, and the worker dies while that waits)}; the quick tier enumerates every "
         "instant x how once, the thorough tier crosses them with victims, n_jobs, call position and batch size; "
         "distinct_nontrivial counts distinct (instant, how, victims, n_jobs, call index, managed) whose fault really "
         "happened (a call failed or worker pids changed)")
@@ -25,15 +26,15 @@ ASSUMPTIONS = [
     "a call either returns exactly the expected list or raises a BrokenProcessPool subclass; at most one call fails per fault; "
     "the call after a failing call returns the expected list computed by live pids",
     "bounded progress: the whole history (a handful of 20 ms tasks, observed < 3 s) must finish within the watchdog (30 s quick / "
-    "60 s thorough); a run that overruns it is a hang only if two stack dumps 10-15 s apart are identical, otherwise inconclusive",
+    "60 s thorough); a run that overruns it is a hang only if the thread making the calls has the same stack in two dumps 10-15 s apart (other threads may spin), otherwise inconclusive",
     "fan-out is limited to 6 cases at a time so that machine load is not the fault",
 ]
 SHARDS = {"quick": 6, "thorough": 6}
-FLOORS = {"quick": {"cases_with_fault_observed": 25, "calls_checked": 70, "instants_covered": 9},
-          "thorough": {"cases_with_fault_observed": 300, "calls_checked": 1200, "instants_covered": 9}}
+FLOORS = {"quick": {"cases_with_fault_observed": 25, "calls_checked": 70, "instants_covered": 12, "deaths_while_the_executor_is_replaced_or_resized": 6},
+          "thorough": {"cases_with_fault_observed": 300, "calls_checked": 1200, "instants_covered": 12, "deaths_while_the_executor_is_replaced_or_resized": 80}}
 CHILD = os.path.join(harness.VERIF, "checks", "c10_child.py")
 INSTANTS = ["arg_unpickle", "task_start", "mid_task", "task_end", "result_pickle", "result_send_small", "result_send_large",
-            "idle_between_calls", "next_call_startup"]
+            "idle_between_calls", "next_call_startup", "executor_replacement", "executor_resize", "next_call_startup_other_n_jobs"]
 HOWS = ["SIGKILL", "SIGSEGV", "exit", "SIGTERM"]
 
 
@@ -46,41 +47,62 @@ def cases(tier, seed):
     rng = harness.rng_for(seed, ID, "cases")
     if tier == "quick":
         for inst in INSTANTS:
-            hows = ["SIGKILL"] if inst in ("result_send_small", "result_send_large", "next_call_startup") else HOWS
+            hows = ["SIGKILL"] if inst in ("result_send_small", "result_send_large", "next_call_startup", "next_call_startup_other_n_jobs") else HOWS
             for how in hows:
                 yield mk(rng, i, inst, how)
                 i += 1
         for _ in range(8):
             yield mk(rng, i, rng.choice(INSTANTS[:5]), rng.choice(HOWS), victims=rng.choice([2, 3]))
             i += 1
+        for _ in range(10):
+            # the window (executor being resized / replaced at the start of the next call) is a few ms wide
+            yield mk(rng, i, "next_call_startup_other_n_jobs", "SIGKILL", victims=rng.choice([1, 1, 2]))
+            i += 1
     else:
         for rep in range(18):
             for inst in INSTANTS:
-                hows = ["SIGKILL"] if inst in ("result_send_small", "result_send_large", "next_call_startup") else HOWS
+                hows = ["SIGKILL"] if inst in ("result_send_small", "result_send_large", "next_call_startup", "next_call_startup_other_n_jobs") else HOWS
                 for how in hows:
                     if inst == "result_send_large" and rep > 2:
                         continue
                     yield mk(rng, i, inst, how, victims=rng.choice([1, 1, 2, 3, 4]))
                     i += 1
+            for _ in range(5):
+                yield mk(rng, i, "next_call_startup_other_n_jobs", "SIGKILL", victims=rng.choice([1, 1, 2]))
+                i += 1
 
 
 def mk(rng, i, inst, how, victims=1):
     J = rng.choice([2, 3, 4])
+    if inst == "next_call_startup_other_n_jobs":
+        # only one idle worker holds the call queue's reader lock: killing all but one makes it likely that the holder dies
+        # and a survivor is left behind it
+        victims = rng.choice([1, J - 1, J - 1])
     victims = min(victims, J)
     N = rng.choice([J, 2 * J, 3 * J + 1])
     ncalls = rng.randint(2, 5)
-    call = rng.randrange(1 if inst in ("idle_between_calls", "next_call_startup") else 0, ncalls) if ncalls > 1 else 0
-    if inst in ("idle_between_calls", "next_call_startup"):
+    call = rng.randrange(1 if inst in ("idle_between_calls", "next_call_startup", "next_call_startup_other_n_jobs") else 0, ncalls) if ncalls > 1 else 0
+    if inst in ("idle_between_calls", "next_call_startup", "next_call_startup_other_n_jobs"):
         call = max(call, 1)
-    return dict(i=i, J=J, N=N, ncalls=ncalls, managed=rng.random() < 0.5, batch_size=rng.choice([1, 1, 2]),
+    managed = rng.random() < 0.5 and inst not in ("executor_replacement", "executor_resize", "next_call_startup_other_n_jobs")
+    return dict(i=i, J=J, N=N, ncalls=ncalls, managed=managed, batch_size=rng.choice([1, 1, 2]),
                 pre_dispatch=rng.choice(["2*n_jobs", "all"]), dur=0.02,
                 fault=dict(call=call, instant=inst, how=how, victims=victims, victim_tasks=sorted(rng.sample(range(N), victims)),
-                           delay=rng.choice([0.0, 0.005, 0.02, 0.05]), settle=rng.choice([0.0, 0.005, 0.02, 0.05, 0.1, 0.3])))
+                           J2=rng.choice([j for j in (2, 3, 4) if j != J]),
+                           delay=rng.choice([0.0, 0.005, 0.02, 0.05]) if inst != "next_call_startup_other_n_jobs" else rng.choice([0.0, 0.0, 0.0002, 0.0005, 0.001, 0.002]), settle=rng.choice([0.0, 0.005, 0.02, 0.05, 0.1, 0.3])))
+
+
+def caller_stack(dump):
+    """the stack of the thread that runs the history of calls (the others - e.g. a manager thread spinning - may move)"""
+    for block in re.split(r"\n\s*\n", re.sub(r"0x[0-9a-f]+", "", dump)):
+        if "c10_child.py" in block and "in main" in block:
+            return "\n".join(block.strip().splitlines()[1:])
+    return ""
 
 
 def same_stacks(st):
-    norm = [re.sub(r"0x[0-9a-f]+", "", s) for s in st]
-    return norm[0].strip() != "" and norm[0] == norm[1]
+    a, b = caller_stack(st[0]), caller_stack(st[1])
+    return a != "" and a == b
 
 
 def run_case(case, ctx):
@@ -117,7 +139,15 @@ def run_case(case, ctx):
                 ctx.inconclusive("child-failed", dict(desc=desc, rc=r["rc"], err=r["err"][-600:], progress=prog[-4:]))
             return
         out = r["result"]
-        failing = [c for c in out["calls"] if "exc_type" in c]
+        # in the overlapped scenarios call B shares the dying executor with call A: it may fail too (with a worker-termination error)
+        failing = [c for c in out["calls"] if "exc_type" in c and c.get("sub") != "B"]
+        if any("exc_type" in c and c.get("sub") == "B" for c in out["calls"]):
+            ctx.count("overlapped_second_call_failed_too")
+        if f["instant"] in ("executor_replacement", "executor_resize"):
+            ctx.count("deaths_while_the_executor_is_replaced_or_resized")
+            a = [c for c in out["calls"] if c.get("sub") == "A"]
+            if a and "exc_type" not in a[0]:
+                ctx.violation(f"lost-task-not-reported:{key_inst}", f"the generator call whose worker died returned {a[0]} instead of raising; fault {f}", desc)
         fault_seen = bool(failing)
         pids_by_call = [c.get("pids") for c in out["calls"]]
         for a, b in zip(pids_by_call, pids_by_call[1:]):
